@@ -92,10 +92,14 @@ impl GffType {
     }
 }
 
+/// The input followed by a final line break: `csv` only recognises a comment line that is terminated, so a
+/// file ending in a comment without a trailing newline would otherwise yield that comment as a record.
+type Terminated<R> = io::Chain<R, &'static [u8]>;
+
 /// A GFF reader.
 #[derive(Debug)]
 pub struct Reader<R: io::Read> {
-    inner: csv::Reader<R>,
+    inner: csv::Reader<Terminated<R>>,
     gff_type: GffType,
 }
 
@@ -119,7 +123,7 @@ impl<R: io::Read> Reader<R> {
                 .delimiter(b'\t')
                 .has_headers(false)
                 .comment(Some(b'#'))
-                .from_reader(reader),
+                .from_reader(reader.chain(&b"\n"[..])),
             gff_type: fileformat,
         }
     }
@@ -280,7 +284,7 @@ impl Serialize for Phase {
 
 /// An iterator over the records of a GFF file.
 pub struct Records<'a, R: io::Read> {
-    inner: csv::StringRecordsIter<'a, R>,
+    inner: csv::StringRecordsIter<'a, Terminated<R>>,
     attribute_re: Regex,
     value_delim: char,
 }
